@@ -571,3 +571,18 @@ Print Assumptions C13_single_contract_verdict_equal_missing_fee_check_parsed.
 Print Assumptions C13_missing_fee_check_unvalidated_exit_ends_a_path.
 Print Assumptions C13_single_contract_verdict_equal_is_updatable.
 Print Assumptions C13_single_contract_verdict_equal_is_deletable.
+
+(* the hypothesis "no callsub / retsub" cannot simply be dropped: on a parsed structured non-recursive logic-sig whose
+   subroutine both approves and returns (the shape of finding D4) missing-fee-check reports no path while group mode
+   reports the transaction (GroupSem4.FeeSubRefuted; replayed on the implementation) *)
+Theorem C13_single_contract_verdict_equal_missing_fee_check_subroutine_refuted :
+  ~ (forall funcs dtype vtypes t k p tl r fuelr fuel ps,
+       Cfg.parse_teal p = Parse.Ok tl -> struct_ok tl -> graph_wf (whole_function tl) = true ->
+       single_contract t k -> nth_error funcs k = Some (whole_function tl, r) -> relative_accessors [t] t = [] ->
+       eligible dtype vtypes t -> g_abs t = None ->
+       run_all (whole_function tl) fuelr = Done r ->
+       run_detector (whole_function tl) r fuel "missing-fee-check" Leaves.checks_missing_fee_check = Done ps ->
+       (txn_vulnerable funcs Leaves.checks_missing_fee_check dtype vtypes [t] t = true <-> ps <> [])).
+Proof. exact single_group_eq_contract_fee_subroutine_refuted. Qed.
+
+Print Assumptions C13_single_contract_verdict_equal_missing_fee_check_subroutine_refuted.
